@@ -24,7 +24,7 @@ func init() {
 		Run: func(c *Ctx) {
 			c.P.Rule = "random families"
 			c.Rapid("lr0", c.Pick(10000, 100000), func(t *rapid.T) {
-				gc := DrawGrammar(t, []string{"uniform", "productive", "nullable", "separators", "lalr", "uniform-small"})
+				gc := DrawGrammar(t, []string{"uniform", "productive", "nullable", "separators", "lalr", "uniform-small", "bigauto"})
 				if msg := evalC09(c, gc); msg != "" {
 					c.Fail(gc, msg)
 					t.Fatalf("%s", msg)
